@@ -239,14 +239,21 @@ def legacy_job(arg):
         meta["protocol"] = LEGACY[kind]
         with open(metap, "w") as f:
             json.dump(meta, f)
-        st2 = mk()
-        try:
-            r = st2.fetch_blob(key)
-            rep.count("legacy_reads")
-            if not SM.values_equal(r, v):
-                rep.violate("blob of %s (%s) with legacy ref %r decoded as %r" % (tag, kind, LEGACY[kind], repr(r)[:80]), {"tag": tag, "kind": kind}, mechanism="legacy-alias-wrong-codec")
-        except BaseException as e:
-            rep.violate("blob of %s (%s) with legacy ref %r: fetch raised %s: %s" % (tag, kind, LEGACY[kind], type(e).__name__, str(e)[:100]), {"tag": tag, "kind": kind}, mechanism="legacy-alias-wrong-codec")
+        from checks import c17
+
+        UserAFileCodec, UserBCodec, _, _ = c17._mk_codecs()
+        for label, prepare in (("a new store object", lambda s_: None),
+                               ("a new store object on which a user file codec was registered afterwards", lambda s_: s_.codec_registry().add_file_codec(UserAFileCodec())),
+                               ("a new store object on which user codecs of both kinds were registered afterwards", lambda s_: (s_.codec_registry().add_codec(UserBCodec()), s_.codec_registry().add_file_codec(UserAFileCodec())))):
+            st2 = mk()
+            try:
+                prepare(st2)
+                r = st2.fetch_blob(key)
+                rep.count("legacy_reads")
+                if not SM.values_equal(r, v):
+                    rep.violate("blob of %s (%s) with legacy ref %r read through %s decoded as %r" % (tag, kind, LEGACY[kind], label, repr(r)[:80]), {"tag": tag, "kind": kind}, mechanism="legacy-alias-wrong-codec")
+            except BaseException as e:
+                rep.violate("blob of %s (%s) with legacy ref %r read through %s: fetch raised %s: %s" % (tag, kind, LEGACY[kind], label, type(e).__name__, str(e)[:100]), {"tag": tag, "kind": kind}, mechanism="legacy-alias-wrong-codec")
         rep.nontriv(("legacy", tag, kind))
     return rep
 
